@@ -1001,6 +1001,30 @@ func fieldsBehindImpl(v ssa.Value, asPtr bool) (fields []string, ok bool) {
 			if n == 0 {
 				ok = false
 			}
+		case *ssa.Parameter:
+			// a pointer parameter of an unexported helper (closeListener(&server.portListener)):
+			// what its static callers pass
+			fn := x.Parent()
+			idx := -1
+			for i, q := range fn.Params {
+				if q == x {
+					idx = i
+				}
+			}
+			sites := 0
+			if (fn.Object() == nil || !fn.Object().Exported()) && theProgram != nil && idx >= 0 {
+				if cs, only := theProgram.onlyStaticallyCalled(fn); only {
+					for _, ci := range cs {
+						if idx < len(ci.Common().Args) {
+							sites++
+							ptr(ci.Common().Args[idx], d+1)
+						}
+					}
+				}
+			}
+			if sites == 0 {
+				ok = false
+			}
 		case *ssa.Field:
 			// the pointer is a field of a struct taken from a table of structs (possibly built
 			// by a helper): {listener: &s.a}, {listener: &s.b}
@@ -1157,3 +1181,6 @@ func pointerTargets(p ssa.Value) ([]string, bool) {
 	// wrapping p as if it were dereferenced
 	return fieldsBehindPtr(p)
 }
+
+// theProgram: the loaded program, for helpers that need call sites but are reached without a Ctx.
+var theProgram *Program
